@@ -1,6 +1,8 @@
 package main
 
 import (
+	"fmt"
+	"sort"
 	"go/ast"
 	"go/token"
 	"go/types"
@@ -272,6 +274,127 @@ func init() {
 					}
 					return true
 				})
+			}
+			// A second way to decide a function the region reading refuses: project it onto each mode
+			// (prune every branch the flag decides) and compare what the two projections DO besides
+			// formatting work — the calls that are not metadata-only, the stores to parser or node state,
+			// the values returned — in source order.  `if !pf { AcceptType(COMMENT); return }` followed by
+			// the format-mode twin that also calls AcceptType(COMMENT) is the same reader in both modes.
+			neutralCall := func(info *types.Info, x *ast.CallExpr) bool {
+				if tv, ok := info.Types[x.Fun]; ok && tv.IsType() {
+					return true
+				}
+				if id, ok := ast.Unparen(x.Fun).(*ast.Ident); ok {
+					if _, isB := info.Uses[id].(*types.Builtin); isB {
+						return true
+					}
+				}
+				fn := originOf(Callee(info, x))
+				if fn == nil {
+					if se, ok := ast.Unparen(x.Fun).(*ast.SelectorExpr); ok {
+						if v, ok := info.Uses[se.Sel].(*types.Var); ok && v.Pkg() != nil && strings.HasPrefix(rel(v.Pkg().Path()), "internal/fmt") {
+							return true
+						}
+					}
+					return false
+				}
+				pp := ""
+				if fn.Pkg() != nil {
+					pp = rel(fn.Pkg().Path())
+				}
+				return pp == "internal/fmtraw" || pp == "internal/fmtmeta" || fn == ignoreComments || formatOnly[fn]
+			}
+			projection := func(u FuncUnit, mode bool) []string {
+				info := u.Pkg.TypesInfo
+				fc := c.cfgOf(u, nil)
+				reach := fc.reachableUnder(func(e ast.Expr) int {
+					if FieldOfSelector(info, e) == pf {
+						if mode {
+							return 1
+						}
+						return 0
+					}
+					return -1
+				})
+				type ent struct {
+					pos token.Pos
+					s   string
+				}
+				var ents []ent
+				for b := range reach {
+					for _, n := range b.Nodes {
+						ast.Inspect(n, func(m ast.Node) bool {
+							switch x := m.(type) {
+							case *ast.FuncLit:
+								return false
+							case *ast.CallExpr:
+								if !neutralCall(info, x) {
+									ents = append(ents, ent{x.Pos(), "call " + exprShape(info, x)})
+								}
+							case *ast.ReturnStmt:
+								for _, r := range x.Results {
+									ents = append(ents, ent{x.Pos(), "return " + exprShape(info, r)})
+								}
+							case *ast.AssignStmt:
+								for _, l := range x.Lhs {
+									l = ast.Unparen(l)
+									if _, isLocal := l.(*ast.Ident); isLocal {
+										continue
+									}
+									sh := exprShape(info, l)
+									if strings.Contains(sh, canonFieldName(pend)) || strings.Contains(sh, "Meta(") {
+										continue
+									}
+									// fields of a Meta value
+									if se, ok := l.(*ast.SelectorExpr); ok {
+										if tv, ok := info.Types[se.X]; ok {
+											t := tv.Type
+											if pt, isP := t.(*types.Pointer); isP {
+												t = pt.Elem()
+											}
+											if nt, isN := types.Unalias(t).(*types.Named); isN && metaT != nil && nt.Obj() == metaT.Obj() {
+												continue
+											}
+										}
+									}
+									ents = append(ents, ent{x.Pos(), "store " + sh})
+								}
+							}
+							return true
+						})
+					}
+				}
+				sort.Slice(ents, func(i, j int) bool { return ents[i].pos < ents[j].pos })
+				var out []string
+				for _, e := range ents {
+					out = append(out, e.s)
+				}
+				return out
+			}
+			badFns := map[string]FuncUnit{}
+			for _, o := range obs {
+				if o.Verdict != Proved {
+					for _, u := range units {
+						if u.Name() == o.Func {
+							badFns[o.Func] = u
+						}
+					}
+				}
+			}
+			for name, u := range badFns {
+				a, b := projection(u, true), projection(u, false)
+				if len(a) == 0 || strings.Join(a, "\n") != strings.Join(b, "\n") {
+					continue
+				}
+				var kept []Obligation
+				for _, o := range obs {
+					if o.Func == name && o.Verdict != Proved {
+						continue
+					}
+					kept = append(kept, o)
+				}
+				obs = append(kept, mkOb(c, "MODE.format-effects", u, "mode projections agree", u.Decl, Proved,
+					fmt.Sprintf("pruned for each value of preserveFormat, the function makes the same %d non-formatting calls, stores and value returns in the same order", len(a)), true))
 			}
 			return obs
 		}})
